@@ -28,7 +28,7 @@ COMPONENTS = {'real': ['real PrecipitateModel (analytic backend) + SinglePhaseMo
 
 def plan(tier):
     if tier == 'quick':
-        return dict(runs=2000, batch=25, hard_timeout=600, soft_timeout=60)
+        return dict(runs=3000, batch=25, hard_timeout=600, soft_timeout=60)
     return dict(runs=120000, batch=200, hard_timeout=900, soft_timeout=30)
 
 
